@@ -6,7 +6,8 @@ TABLES = {"handlers": "Handlers.v", "mintsites": "MintSites.v", "blockers": "Blo
           "ownerflow": "OwnerFlow.v",
           # arithmetic ties (tools/gotrans/arith.go): one table per property so that a broken tie only fails its own property
           "arithC14": "ArithC14.v", "arithC07": "ArithC07.v", "arithC13": "ArithC13.v", "arithC03": "ArithC03.v",
-          "arithC20": "ArithC20.v", "arithC16": "ArithC16.v", "arithC05": "ArithC05.v", "arithC12": "ArithC12.v", "arithC10": "ArithC10.v"}
+          "arithC20": "ArithC20.v", "arithC16": "ArithC16.v", "arithC05": "ArithC05.v", "arithC12": "ArithC12.v", "arithC10": "ArithC10.v",
+          "arithC03b": "ArithC03b.v"}  # weight-breaking fee of oracle pools (tools/gotrans/arith3.go), shared by C03 and C05
 BROKEN = "(* gotrans failed on the current tree *)\nDefinition handlers := gotrans_failed_on_the_current_tree_see_log.\n"
 
 
